@@ -1,6 +1,8 @@
 // Compile (do not run) program texts with V8 as script or module. One JSON job per line:
 //   {"id", "kind": "script"|"module", "code"}  ->  {"id", "ok": bool, "error": "..."}
 'use strict'
+process.stdout.on('error', () => process.exit(0))
+process.stderr.on('error', () => process.exit(0))
 const vm = require('vm')
 const readline = require('readline')
 const rl = readline.createInterface({ input: process.stdin, crlfDelay: Infinity })
